@@ -162,14 +162,14 @@ class StateMachineMatcher:
                         if suffix == "/":
                             remaining = [""]
 
+                    # Order by converter number, "__werkzeug_10" comes
+                    # after "__werkzeug_9".
                     converter_groups = sorted(
-                        match.groupdict().items(), key=lambda entry: entry[0]
-                    )
-                    groups = [
-                        value
-                        for key, value in converter_groups
+                        (int(key[11:]), value)
+                        for key, value in match.groupdict().items()
                         if key[:11] == "__werkzeug_"
-                    ]
+                    )
+                    groups = [value for _, value in converter_groups]
                     rv = _match(new_state, remaining, values + groups)
                     if rv is not None:
                         return rv
